@@ -4,6 +4,8 @@
               their clock (time, time_step, absolute time, step counter, first/last flags); the increments X1, X2 it
               adds to its bucket satisfy  X1[g] * step2 == X2[g] * step1  (proportional to the model's own time step,
               independent of every other clock field), and a non-empty bucket is incremented, not replaced.
+              The dark-current model (noise-free: no shot noise, no fixed-pattern noise; band gaps given or derived by the
+              Varshni expression) is executed through the astropy Quantity contract.
               Helpers that do not receive the detector (calculate_illumination, compute_pattern, the cached file
               loader) are deterministic functions of their arguments.
   steps.telescope   sum_{i<k} steps[i] == times[k-1] - start   (induction over C02's step contract)
@@ -19,7 +21,7 @@ from . import detmodel as D
 from .C02 import T, START, steps_spec, N
 
 TRUSTED = ["helpers that receive neither the detector nor a clock value are deterministic functions of their arguments (memoised uninterpreted results)",
-           "real arithmetic (two schedules agree only up to rounding in binary64)", "astropy-Quantity based dark current model is not under contract (stated gap)",
+           "real arithmetic (two schedules agree only up to rounding in binary64)", "astropy Quantity/Unit/constants: values carried exactly, unit conversions multiply by a positive constant of the two units (contracts/quantity.py); np.exp and x ** 1.5 uninterpreted; dark current with shot noise or fixed-pattern noise is outside the property (not deterministic)",
            "load_cropped_and_aligned_image returns the same array for the same file within a run (C20)"]
 G = D.GEN
 PC = "pyxel/models/photon_collection/"
@@ -77,6 +79,7 @@ def two_detectors(ex, u, bucket, prior):
             st.cell(parts[bucket]).fields["_array"] = arr
         dets.append((det, parts, step))
     ex.st.ghost["generic"] = [G]
+    ex.st.ghost["dark_dets"] = [d for d, _, _ in dets]
     # documented parameter ranges: positive time scale, non-negative flux level / multiplier
     ex.st.assume(z3.And(z3.Real("time_scale") > 0, z3.Real("level") >= 0, z3.Real("multiplier") >= 0))
     return dets
@@ -85,22 +88,25 @@ def two_detectors(ex, u, bucket, prior):
 LIN_REPLAY = lambda w: {"code": """
 import numpy as np, tempfile, os, verif_probes as VP
 from pyxel.models.photon_collection import illumination, stripe_pattern, load_image
-from pyxel.models.charge_generation import load_charge
-d = tempfile.mkdtemp(); fn = os.path.join(d, 'img.npy'); np.save(fn, np.arange(12.0).reshape(3, 4) + 1)
+from pyxel.models.charge_generation import load_charge, dark_current
+d = tempfile.mkdtemp(); fn = os.path.join(d, 'img.npy'); np.save(fn, np.arange(24.0).reshape(4, 6) + 1)
 def run(model, steps_times, kwargs, bucket):
-    det = VP.detector()
+    det = VP.detector(rows=4, cols=6)      # even sizes: the stripe pattern refuses odd ones
+    det.environment.temperature = 250.0
     det.set_readout(times=[t for t, _ in steps_times], start_time=0.0)
     det.empty()
     out = []
     for i, (t, s) in enumerate(steps_times):
         det.readout_properties.time, det.readout_properties.time_step, det.readout_properties.pipeline_count = t, s, i
-        getattr(det, bucket).empty()
+        getattr(det, bucket).empty() if bucket != 'charge' else det.charge.empty()
         model(det, **kwargs)
         out.append(np.array(getattr(det, bucket).array))
     return out
 VIOLATED, DETAIL = False, ''
 for model, kwargs, bucket in ((illumination, dict(level=3.0), 'photon'), (stripe_pattern, dict(period=2, level=5.0), 'photon'),
-                              (load_image, dict(image_file=fn), 'photon'), (load_charge, dict(filename=fn), 'charge')):
+                              (load_image, dict(image_file=fn), 'photon'), (load_charge, dict(filename=fn), 'charge'),
+                              (dark_current, dict(figure_of_merit=2.0, temporal_noise=False), 'charge'),
+                              (dark_current, dict(figure_of_merit=2.0, temporal_noise=False, band_gap=1.1, band_gap_room_temperature=1.12), 'charge')):
     a, b = run(model, [(1.0, 1.0), (4.0, 3.0)], kwargs, bucket)
     if not np.allclose(a * 3.0, b):
         VIOLATED, DETAIL = True, f'{model.__name__}: increment for a 3 s step is not 3x the increment of a 1 s step: {a.ravel()[:3]} vs {b.ravel()[:3]}'
@@ -188,6 +194,47 @@ unit("C17", "linear.load_image")(linear_unit("load_image", PC + "load_image.py::
                                                [("pyxel/util/image.py::load_cropped_and_aligned_image", "load_cropped_and_aligned_image")]))
 unit("C17", "linear.load_charge")(linear_unit("load_charge", CG + "load_charge.py::load_charge", "charge", kw_load_charge,
                                                 [("pyxel/util/image.py::load_cropped_and_aligned_image", "load_cropped_and_aligned_image")]))
+
+
+def kw_dark_current(ex):
+    # noise-free dark current: no shot noise, no fixed-pattern noise; band gaps either both given or both derived (Varshni)
+    ex.st.assume(z3.Real("figure_of_merit") >= 0)
+    if not ex.st.ghost.get("dark_env"):
+        # the settings the model reads besides the clock: pixel pitch and temperature, IDENTICAL in the two detectors (their
+        # validated ranges are the setters' contracts, C12); an unset temperature is covered too (both runs raise alike)
+        ex.st.ghost["dark_env"] = True
+        eci = ex.world.cls("pyxel/detectors/environment.py::Environment")
+        ex.st.assume(z3.And(z3.Real("pixel_vert_size") > 0, z3.Real("pixel_horz_size") > 0, z3.Real("temperature") > 0, z3.Real("temperature") <= 1000))
+        for ref in ex.st.ghost.get("dark_dets", []):
+            d = ex.st.cell(ref)
+            ex.st.cell(d.fields["_geometry"]).fields.update({"_pixel_vert_size": VFloat(z3.Real("pixel_vert_size")), "_pixel_horz_size": VFloat(z3.Real("pixel_horz_size"))})
+            d.fields["_environment"] = ex.st.alloc(HObj(eci, {"_temperature": VFloat(z3.Real("temperature")), "_wavelength": NONE, "_numbytes": VInt(0)}))
+    ex.st.assume(z3.And(z3.Real("band_gap") > 0, z3.Real("band_gap_room") > 0))      # a band gap is a positive energy (0.0 counts as "not given")
+    both = ex.st.branch(z3.Bool("band_gaps_given"))
+    return {"figure_of_merit": VFloat(z3.Real("figure_of_merit")), "spatial_noise_factor": NONE, "temporal_noise": VBool(False), "seed": NONE,
+            "band_gap": VFloat(z3.Real("band_gap")) if both else NONE, "band_gap_room_temperature": VFloat(z3.Real("band_gap_room")) if both else NONE}
+
+
+def _dark_unit():
+    from . import quantity
+    inner = linear_unit("dark_current", CG + "dark_current.py::dark_current", "charge", kw_dark_current, [])
+
+    def un(u: Unit):
+        for n in ("compute_dark_current", "simulate_dark_signal", "calculate_band_gap", "calculate_band_gap_varshni"):
+            u.fn(CG + f"dark_current.py::{n}")
+        orig = D.install
+
+        def install(cfg):
+            return quantity.install(orig(cfg))
+        D.install = install
+        try:
+            inner(u)
+        finally:
+            D.install = orig
+    return un
+
+
+unit("C17", "linear.dark_current")(_dark_unit())
 
 
 # the step contract the lemmas below rest on is proved on the real ReadoutProperties.__init__ / calculate_steps
